@@ -724,3 +724,109 @@ func isBuiltinCall(call *ssa.Call, name string) bool {
 	bi, ok := call.Call.Value.(*ssa.Builtin)
 	return ok && bi.Name() == name
 }
+
+// ---------- AL-KEY (C10, C11)
+
+// ruleALKey: the arena handed out for a type is the arena of exactly that
+// type. The arena's element type decides how the collector scans it and how
+// slots are cleared, so an arena found by anything weaker than type identity
+// (size, kind) puts pointer-bearing values in memory that is not scanned.
+func ruleALKey(c *Ctx) {
+	c.Rule("AL-KEY", "the arena table is keyed by the exact run-time type: an existing arena is returned only where its recorded type pointer equals the requested type's, and a new arena records the requested type's own pointer", 2)
+	P := c.P
+	rbT := P.NamedType(P.Avro, "ResourceBank")
+	var fn *ssa.Function
+	for _, f := range P.ModuleFuncs() {
+		if f.Signature.Recv() == nil || f.Pkg != P.Avro || f.Blocks == nil || f.Signature.Results().Len() != 1 {
+			continue
+		}
+		if rt := f.Signature.Recv().Type(); rbT == nil || typeKey(rt) != "*avro.ResourceBank" {
+			continue
+		}
+		if pt, ok := f.Signature.Results().At(0).Type().Underlying().(*types.Pointer); ok {
+			if _, isStruct := pt.Elem().Underlying().(*types.Struct); isStruct && reflectTypeParamIdx(f) >= 0 && !isUnsafePointer(f.Signature.Results().At(0).Type()) {
+				fn = f
+			}
+		}
+	}
+	if !c.Anchor(fn != nil, "the bank's arena lookup (method taking a reflect.Type, returning an arena entry)") {
+		return
+	}
+	typ := fn.Params[reflectTypeParamIdx(fn)]
+	// wantLike: v is the data word of the requested reflect.Type
+	wantLike := func(v ssa.Value) bool {
+		src := rtypeSource(v)
+		return src != nil && stripChange(src) == ssa.Value(typ)
+	}
+	key := fnKey(fn)
+	var appendStore *ssa.Store
+	for _, b := range fn.Blocks {
+		for _, in := range b.Instrs {
+			if st, ok := in.(*ssa.Store); ok {
+				if call, ok := st.Val.(*ssa.Call); ok && isBuiltinCall(call, "append") {
+					appendStore = st
+				}
+			}
+		}
+	}
+	nExisting := 0
+	for _, r := range returnsOf(fn) {
+		v := resolvedResults(r)[0]
+		if appendStore != nil && dominatesInstr(appendStore, r) {
+			continue // the freshly appended entry, judged below
+		}
+		nExisting++
+		ok := false
+		for _, cmp := range cmpFactsAt(r.Block()) {
+			if cmp.Op != token.EQL {
+				continue
+			}
+			for _, pair := range [][2]ssa.Value{{cmp.X, cmp.Y}, {cmp.Y, cmp.X}} {
+				ld, isLd := pair[0].(*ssa.UnOp)
+				if !isLd || ld.Op != token.MUL {
+					continue
+				}
+				fa, isFA := ld.X.(*ssa.FieldAddr)
+				if isFA && fieldName(fa.X.Type(), fa.Field) == "ptyp" && (fa.X == v || accessPath(fa.X) == accessPath(v)) && wantLike(pair[1]) {
+					ok = true
+				}
+			}
+		}
+		c.Check(ok, fmt.Sprintf("%s/existing-entry@%s", key, P.pos(r.Pos())), P.pos(r.Pos()), "returned only where entry.ptyp == the requested type's pointer", "an existing arena is returned without its recorded type having been found equal to the requested type: values of another type (with other pointer slots) are carved out of it, invisible to the collector or cleared with the wrong layout")
+	}
+	// the new entry records the requested type
+	okNew := false
+	if appendStore != nil {
+		app := appendStore.Val.(*ssa.Call)
+		if sl, ok := app.Call.Args[1].(*ssa.Slice); ok {
+			if a, ok := sl.X.(*ssa.Alloc); ok {
+				for _, r := range referrersOf(a) {
+					ia, ok := r.(*ssa.IndexAddr)
+					if !ok {
+						continue
+					}
+					for _, r2 := range referrersOf(ia) {
+						// the element is copied in from a composite literal built in a local
+						if st, ok := r2.(*ssa.Store); ok && st.Addr == ssa.Value(ia) {
+							if ld, ok := st.Val.(*ssa.UnOp); ok && ld.Op == token.MUL {
+								if lit, ok := ld.X.(*ssa.Alloc); ok {
+									if v := literalFields(lit)["ptyp"]; v != nil && wantLike(v) {
+										okNew = true
+									}
+								}
+							}
+						}
+						if fa, ok := r2.(*ssa.FieldAddr); ok && fieldName(fa.X.Type(), fa.Field) == "ptyp" {
+							for _, r3 := range referrersOf(fa) {
+								if st, ok := r3.(*ssa.Store); ok && wantLike(st.Val) {
+									okNew = true
+								}
+							}
+						}
+					}
+				}
+			}
+		}
+	}
+	c.Check(okNew && nExisting > 0, key+"/new-entry", P.pos(fn.Pos()), "a new arena records the requested type's own pointer", "a new arena does not record the requested type's pointer (or no existing-entry path was found)")
+}
